@@ -390,11 +390,13 @@ theorem alive_handleSocketError (e : Option Nat) (w : World) (h : Alive w) : Ali
   split <;> exact ⟨h.ircZombie, h.zombie, h.removed, h.crashed⟩
 
 theorem alive_sendIfMsgs (w : World) (h : Alive w) : Alive (sendIfMsgs env w) := by
-  obtain ⟨h1, h2, h3, h4⟩ := h
-  rw [sendIfMsgs_eq hne]
-  refine ⟨?_, ?_, ?_, ?_⟩ <;>
-  · simp only [sendPlain, sendTake, takeAll, sendFlush, sendFinish, doSend, reallyDie, driverDie, handleSocketError]
-    (repeat' split) <;> simp_all
+  rcases sendIfMsgs_cases hne w with e | e <;> rw [e]
+  · obtain ⟨h1, h2, h3, h4⟩ := h
+    refine ⟨?_, ?_, ?_, ?_⟩ <;>
+    · simp only [sendPlain, sendTake, takeAll, sendFlush, sendFinish, doSend, reallyDie, driverDie, handleSocketError]
+      (repeat' split) <;> simp_all
+  · unfold reconnect
+    exact ⟨h.ircZombie, h.zombie, h.removed, h.crashed⟩
 
 omit hne in
 theorem alive_reconnect (wait : Bool) (w : World) (h : Alive w) : Alive (reconnect env wait w) := by
@@ -495,6 +497,7 @@ theorem alive_runOps (ops : List Op) (w : World) (h : Alive w) (hn : noDie ops) 
     | scriptRecv r => exact ⟨h.ircZombie, h.zombie, h.removed, h.crashed⟩
     | ircDie => exact absurd rfl (hn .ircDie (by simp))
     | tick => exact ⟨h.ircZombie, h.zombie, h.removed, h.crashed⟩
+    | pingTimeout => exact ⟨h.ircZombie, h.zombie, h.removed, h.crashed⟩
     | loop => exact alive_loop hne w h
 
 /-! ### a PING line on a quiet connection -/
@@ -505,8 +508,8 @@ theorem calm_sendIfMsgs_wire (w : World) (h : Calm w) :
     (sendIfMsgs env w).outbuffer = [] ∧ (sendIfMsgs env w).queue = [] ∧
     (sendIfMsgs env w).fed = w.fed ∧ (sendIfMsgs env w).inbuffer = w.inbuffer ∧
     (sendIfMsgs env w).allFed = w.allFed := by
-  obtain ⟨h1, h2, h3, h4, h5, h6, h7⟩ := h
-  rw [sendIfMsgs_eq hne]
+  obtain ⟨h1, h2, h3, h4, h5, h6, h7, h8⟩ := h
+  rw [sendIfMsgs_eq hne w h8]
   refine ⟨?_, ?_, ?_, ?_, ?_, ?_⟩ <;>
   · simp only [sendPlain, sendTake, takeAll, sendFlush, sendFinish, doSend, reallyDie, driverDie]
     (repeat' split) <;> simp_all
